@@ -404,6 +404,11 @@ def _thresholds(rng, pts, knees):
 def cases(rng, tier, shard, nshards):
     total = META['quick_cases'] if tier == 'quick' else META['thorough_cases']
     count = shard_count(total, shard, nshards)
+    # one long curve with hundreds of knees per shard in every tier
+    lp, lmeta = gen.curve(rng, nmax=6000, nmin=3000, family=pick(rng, ['mrc', 'noise', 'stairs', 'inv']))
+    lk = np.unique(np.concatenate((rng.choice(len(lp), size=int(rng.integers(150, 400)), replace=False), [0, len(lp) - 1]))).astype(int)
+    yield {'points': lp, 'family': lmeta['family'] + '+long', 'layout': 'C', 'knees': lk, 'ts': _thresholds(rng, lp, lk),
+           'even': False, 'tx': 0.1, 'ty': 0.05}
     for i in range(count):
         r = rng.random()
         if r < 0.5:
